@@ -95,30 +95,36 @@ class ScopeContext:
         exc_val: BaseException | None,
         exc_tb: TracebackType | None,
     ) -> None:
-        if self._disposables is not None:
-            await self._disposables.__aexit__(
-                exc_type=exc_type,
-                exc_val=exc_val,
-                exc_tb=exc_tb,
-            )
+        try:
+            if self._disposables is not None:
+                await self._disposables.__aexit__(
+                    exc_type=exc_type,
+                    exc_val=exc_val,
+                    exc_tb=exc_tb,
+                )
 
-        await self._task_group_context.__aexit__(
-            exc_type=exc_type,
-            exc_val=exc_val,
-            exc_tb=exc_tb,
-        )
+        finally:  # leave the rest of the scope even if disposing fails or is cancelled
+            try:
+                await self._task_group_context.__aexit__(
+                    exc_type=exc_type,
+                    exc_val=exc_val,
+                    exc_tb=exc_tb,
+                )
 
-        self._metrics_context.__exit__(
-            exc_type=exc_type,
-            exc_val=exc_val,
-            exc_tb=exc_tb,
-        )
+            finally:
+                try:
+                    self._metrics_context.__exit__(
+                        exc_type=exc_type,
+                        exc_val=exc_val,
+                        exc_tb=exc_tb,
+                    )
 
-        self._state_context.__exit__(
-            exc_type=exc_type,
-            exc_val=exc_val,
-            exc_tb=exc_tb,
-        )
+                finally:
+                    self._state_context.__exit__(
+                        exc_type=exc_type,
+                        exc_val=exc_val,
+                        exc_tb=exc_tb,
+                    )
 
 
 @final
